@@ -56,6 +56,12 @@ CHECKS.update({
    note="Trusted: the harness's own tokenizer (only used to place edits) and the regular expressions describing the diagnostic format. Inputs are valid UTF-8 within the deviation bound; arbitrary byte soup is not explored."),
 })
 
+CHECKS.update({
+ "C12": dict(level="fault_enumeration", design="4/C12", engine="c12 (python driver, LD_PRELOAD injector, stand-in rustc)", technique="explicit-state search over (source version, directory content) states with the real eqlog binary as transition function; every crash point / torn write / failing rustc of every build enumerated, deviation-bounded; oracle: byte equality with a clean build, zero mutations on a no-op build",
+   text="From the empty directory, all states reachable by edits between four source versions and builds are explored to a fixpoint; then every build from every such state is killed before each of its file-system mutations, torn in the middle of each write, or run with rustc failing for each component (1 deviation quick, up to 2-3 thorough), and the result is closed again under edits and builds. After every build that reports success the output and component directories must equal a clean build of the current version byte for byte, and a second build must perform zero file-system mutations (observed by the injector, not by mtimes). Module and component mode.",
+   note="Trusted: the LD_PRELOAD injector (validated against strace at every run), the stand-in rustc (library = function of the source). RAYON_NUM_THREADS=1; simultaneous half-built components are not enumerated."),
+})
+
 PENDING = {}
 
 def main():
